@@ -594,6 +594,182 @@ fn check_pdf(rep: &TaxReport, runs: &[(usize, f64, f64, String)]) -> Problems {
     p
 }
 
+
+// ---------------------------------------------------------------------------------------- transaction echoes
+/// A displayed number must equal the full value or the value rounded half away from zero at the displayed precision.
+fn shown_number_ok(shown: &str, full: &Rat) -> bool {
+    let t = shown.replace(',', "").replace('\u{2212}', "-");
+    let Ok(v) = Decimal::from_str(&t) else { return false };
+    let dp = t.split('.').nth(1).map(|f| f.len() as u32).unwrap_or(0);
+    let sv = r(v);
+    if &sv == full || sv.close(full) {
+        return true;
+    }
+    let scale = num_bigint::BigInt::from(10).pow(dp);
+    sv == Rat::new(full.round_half_away_scaled(dp), scale)
+}
+fn numeric_part(tok: &str) -> String {
+    let t = tok.trim_matches(|c| c == '(' || c == ')');
+    let start = t.find(|c: char| c.is_ascii_digit()).unwrap_or(t.len());
+    let neg = t[..start].contains('-') || t[..start].contains('\u{2212}');
+    format!("{}{}", if neg { "-" } else { "" }, &t[start..])
+}
+fn op_name(t: &Transaction) -> &'static str {
+    use cgt_core::Operation::*;
+    match t.operation {
+        Buy { .. } => "BUY",
+        Sell { .. } => "SELL",
+        Dividend { .. } => "DIVIDEND",
+        Accumulation { .. } => "ACCUMULATION",
+        CapReturn { .. } => "CAPRETURN",
+        Split { .. } => "SPLIT",
+        Unsplit { .. } => "UNSPLIT",
+    }
+}
+
+/// The echoed transactions and asset events of the plain-text report (requires unique (date, kind, ticker) lines).
+fn check_plain_echo(rep: &TaxReport, plain: &str) -> Problems {
+    use cgt_core::Operation::*;
+    let mut p: Problems = vec![];
+    let mut section = "";
+    let mut seen = 0usize;
+    for l in plain.lines() {
+        if l.starts_with("# ") {
+            section = l.trim();
+            continue;
+        }
+        if l.trim().is_empty() || (section != "# TRANSACTIONS" && section != "# ASSET EVENTS") {
+            continue;
+        }
+        let t: Vec<&str> = l.split_whitespace().collect();
+        if t.len() < 4 {
+            p.push(("plain-echo", format!("unreadable echo line '{l}'")));
+            continue;
+        }
+        let (date, kind) = (t[0], t[1]);
+        let ticker = if section == "# TRANSACTIONS" { t[3] } else { t[2] };
+        let Some(tx) = rep.transactions.iter().find(|x| ddmmyyyy(x.date) == date && op_name(x) == kind && x.ticker == ticker) else {
+            p.push(("plain-echo", format!("echo line '{l}' matches no transaction of the ledger")));
+            continue;
+        };
+        seen += 1;
+        let dress = |p: &mut Problems, what: &str, tok: &str, a: &cgt_core::CurrencyAmount| {
+            if !shown_number_ok(&numeric_part(tok), &r(a.amount)) {
+                p.push(("plain-echo", format!("{date} {kind} {ticker} {what}: shown '{tok}', value {}", a.amount)));
+            }
+            if a.currency.code() == "GBP" && !tok.trim_matches('(').replace('\u{2212}', "-").trim_start_matches('-').starts_with('£') {
+                p.push(("plain-echo", format!("{date} {kind} {ticker} {what}: GBP amount '{tok}' not shown with £")));
+            }
+        };
+        match &tx.operation {
+            Buy { amount, price, fees } | Sell { amount, price, fees } => {
+                if t[2] != trimmed(*amount) {
+                    p.push(("plain-echo", format!("{date} {kind} {ticker}: quantity shown {} exact {}", t[2], trimmed(*amount))));
+                }
+                if t.len() >= 8 {
+                    dress(&mut p, "price", t[5], price);
+                    dress(&mut p, "fees", t[6], fees);
+                } else {
+                    p.push(("plain-echo", format!("unreadable trade line '{l}'")));
+                }
+            }
+            Dividend { total_value, .. } => dress(&mut p, "total", t[3], total_value),
+            Accumulation { amount, total_value, .. } | CapReturn { amount, total_value, .. } => {
+                if t[3] != trimmed(*amount) {
+                    p.push(("plain-echo", format!("{date} {kind} {ticker}: quantity shown {} exact {}", t[3], trimmed(*amount))));
+                }
+                if t.len() >= 5 {
+                    dress(&mut p, "total", t[4], total_value);
+                }
+            }
+            Split { ratio } | Unsplit { ratio } => {
+                if t[3] != trimmed(*ratio) {
+                    p.push(("plain-echo", format!("{date} {kind} {ticker}: ratio shown {} exact {}", t[3], trimmed(*ratio))));
+                }
+            }
+        }
+    }
+    if seen != rep.transactions.len() {
+        p.push(("plain-lists", format!("{} transactions echoed, the ledger has {}", seen, rep.transactions.len())));
+    }
+    p
+}
+
+/// The Transactions and Asset Events tables of the PDF.
+fn check_pdf_echo(rep: &TaxReport, runs: &[(usize, f64, f64, String)]) -> Problems {
+    use cgt_core::Operation::*;
+    let mut p: Problems = vec![];
+    // rows in document order: a row starts with a DD/MM/YYYY run
+    let is_date = |s: &str| s.len() == 10 && s.as_bytes()[2] == b'/' && s.as_bytes()[5] == b'/';
+    let start = runs.iter().position(|x| x.3 == "Transactions").unwrap_or(runs.len());
+    let mut rows: Vec<Vec<String>> = vec![];
+    for x in &runs[start..] {
+        let t = x.3.trim().replace('\u{2212}', "-");
+        if t.is_empty() || t.starts_with("Page ") {
+            continue;
+        }
+        if is_date(&t) {
+            rows.push(vec![t]);
+        } else if let Some(row) = rows.last_mut() {
+            row.push(t);
+        }
+    }
+    let mut seen = 0usize;
+    for row in &rows {
+        if row.len() < 4 {
+            continue;
+        }
+        let (date, kind, ticker) = (&row[0], &row[1], &row[2]);
+        let Some(tx) = rep.transactions.iter().find(|x| &ddmmyyyy(x.date) == date && op_name(x) == kind && &x.ticker == ticker) else {
+            p.push(("pdf-echo", format!("PDF row {row:?} matches no transaction of the ledger")));
+            continue;
+        };
+        seen += 1;
+        let amount_ok = |p: &mut Problems, what: &str, cell: &str, a: &cgt_core::CurrencyAmount| {
+            // "£1,234.57" or "USD 1,234.57"
+            let (code_ok, num) = if a.currency.code() == "GBP" { (cell.trim_start_matches('-').starts_with('£'), numeric_part(cell)) } else { (cell.contains(a.currency.code()), numeric_part(cell.trim_start_matches(|c: char| c.is_ascii_alphabetic() || c == ' '))) };
+            if !code_ok || !shown_number_ok(&num, &r(a.amount)) {
+                p.push(("pdf-echo", format!("{date} {kind} {ticker} {what}: shown '{cell}', value {} {}", a.amount, a.currency.code())));
+            }
+        };
+        match &tx.operation {
+            Buy { amount, price, fees } | Sell { amount, price, fees } => {
+                if row.len() >= 6 {
+                    if row[3] != qty6(*amount) {
+                        p.push(("pdf-echo", format!("{date} {kind} {ticker}: quantity shown {} expected {}", row[3], qty6(*amount))));
+                    }
+                    amount_ok(&mut p, "price", &row[4], price);
+                    amount_ok(&mut p, "fees", &row[5], fees);
+                } else {
+                    p.push(("pdf-echo", format!("unreadable PDF trade row {row:?}")));
+                }
+            }
+            Dividend { total_value, .. } => {
+                if row.len() >= 5 {
+                    amount_ok(&mut p, "total", &row[4], total_value);
+                }
+            }
+            Accumulation { amount, total_value, .. } | CapReturn { amount, total_value, .. } => {
+                if row.len() >= 5 {
+                    if row[3] != qty6(*amount) {
+                        p.push(("pdf-echo", format!("{date} {kind} {ticker}: quantity shown {} expected {}", row[3], qty6(*amount))));
+                    }
+                    amount_ok(&mut p, "total", &row[4], total_value);
+                }
+            }
+            Split { ratio } | Unsplit { ratio } => {
+                if row.len() >= 4 && row[3] != qty6(*ratio) {
+                    p.push(("pdf-echo", format!("{date} {kind} {ticker}: ratio shown {} expected {}", row[3], qty6(*ratio))));
+                }
+            }
+        }
+    }
+    if seen != rep.transactions.len() {
+        p.push(("pdf-lists", format!("{} transactions echoed in the PDF tables, the ledger has {}", seen, rep.transactions.len())));
+    }
+    p
+}
+
 // ---------------------------------------------------------------------------------------- the lattice
 fn lattice(tier: Tier) -> Vec<(String, Vec<Transaction>)> {
     let d0 = alpha::date(2024, 1, 10);
@@ -615,6 +791,24 @@ fn lattice(tier: Tier) -> Vec<(String, Vec<Transaction>)> {
         out.push((format!("million-loss {g}"), vec![alpha::buy(d0, "X", "1", &(dec("1234568.885") + g).to_string(), "0"), alpha::sell(d1, "X", "1", "1", "0")]));
         out.push((format!("fees-lattice {g}"), vec![alpha::buy(d0, "X", "2", "10", "0.005"), alpha::sell(d1, "X", "1", "16.005", &(dec("0.505") + g).to_string())]));
         out.push((format!("usd-echo {g}"), vec![alpha::buy(d0, "X", "2", &format!("{} USD", dec("1234.565") + g), "1.005 USD"), alpha::sell(d1, "X", "1", &format!("{} USD", dec("2000.005") + g), "0")]));
+    }
+    // foreign-currency echoes on half-minor-unit midpoints: prices, fees, dividend / accumulation / capital-return totals
+    let echo_steps: Vec<i64> = if tier == Tier::Quick { (-6..=6).collect() } else { (-40..=40).collect() };
+    for k in &echo_steps {
+        let g = h(*k);
+        out.push((
+            format!("fx-echo {g}"),
+            vec![
+                alpha::buy(d0, "X", "2", &format!("{} USD", dec("1234.565") + g), &format!("{} USD", dec("1.005") + g)),
+                alpha::buy(alpha::date(2024, 1, 11), "Y", "3", &format!("{} JPY", dec("150.5") + g), "0"),
+                alpha::sell(d1, "X", "1", &format!("{} USD", dec("2000.005") + g), "0"),
+                alpha::dividend(alpha::date(2024, 3, 1), "X", &format!("{} USD", dec("20.125") + g), "1 USD"),
+                alpha::accum(alpha::date(2024, 3, 2), "X", "1", &format!("{} EUR", dec("7.665") + g), "0"),
+                alpha::capret(alpha::date(2024, 3, 3), "X", "1", &format!("{} JPY", dec("100.5") + Decimal::from(*k)), "0"),
+                alpha::dividend(alpha::date(2024, 3, 4), "Y", &(dec("3.335") + g).to_string(), "0"),
+                alpha::split(alpha::date(2024, 3, 5), "Y", "2.5"),
+            ],
+        ));
     }
     for q in ["1.5", "1.25", "0.125", "0.0625", "0.03125", "0.015625", "0.0078125", "0.00390625", "0.001953125", "0.0009765625", "3.3333333333", "1000000.5"] {
         out.push((format!("quantity {q}"), vec![alpha::buy(d0, "X", &(dec(q) * dec("2")).to_string(), "10.005", "0"), alpha::sell(d1, "X", q, "12.345", "0.1")]));
@@ -663,19 +857,19 @@ pub fn c17(tier: Tier) -> i32 {
             acc.validated += 1;
             acc.bump("plain+json compared");
             let plain = cgt_formatter_plain::format(&rep);
-            for (c, d) in check_plain(&rep, &plain) {
+            for (c, d) in check_plain(&rep, &plain).into_iter().chain(check_plain_echo(&rep, &plain)) {
                 acc.violation(&ctxr.findings, "C17", viol(c, txs, d, "plain text", name));
             }
             let js = serde_json::to_value(&rep).unwrap_or(Value::Null);
             for (c, d) in check_json(&rep, &js, "json-figures", "json-lists") {
                 acc.violation(&ctxr.findings, "C17", viol(c, txs, d, "JSON", name));
             }
-            if i % pdf_every == 0 || name.starts_with("multi") || name.starts_with("quantity") {
+            if i % pdf_every == 0 || name.starts_with("multi") || name.starts_with("quantity") || name.starts_with("fx-echo") {
                 acc.bump("pdf compared");
                 acc.bump("transitions");
                 match cgt_formatter_pdf::verif_text_runs(&rep) {
                     Ok(runs) => {
-                        for (c, d) in check_pdf(&rep, &runs) {
+                        for (c, d) in check_pdf(&rep, &runs).into_iter().chain(check_pdf_echo(&rep, &runs)) {
                             acc.violation(&ctxr.findings, "C17", viol(c, txs, d, "PDF", name));
                         }
                     }
